@@ -62,7 +62,10 @@ func GenCodecFile(r *R, idx int) *ir.File {
 
 	f.Enums = append(f.Enums,
 		&ir.Enum{Name: "Tint", Values: []ir.EnumValue{{Name: "TINT_UNSPECIFIED", Number: 0}, {Name: "TINT_RED", Number: 1}, {Name: "TINT_BLUE", Number: 2}}},
-		&ir.Enum{Name: "Phase", Values: []ir.EnumValue{{Name: "PHASE_UNSPECIFIED", Number: 0}, {Name: "PHASE_ACTIVE", Number: 1, Custom: sp("active")}, {Name: "PHASE_GONE", Number: 2}}})
+		&ir.Enum{Name: "Phase", Values: []ir.EnumValue{{Name: "PHASE_UNSPECIFIED", Number: 0}, {Name: "PHASE_ACTIVE", Number: 1, Custom: sp("active")}, {Name: "PHASE_GONE", Number: 2},
+			// custom wire values that LOOK like numbers (and are not the value's own number): a string is looked up in the
+			// table of custom values, it is never read as an enum number
+			{Name: "PHASE_OK", Number: 3, Custom: sp("200")}, {Name: "PHASE_FIRST", Number: 4, Custom: sp("1")}}})
 
 	// children
 	msg("Spot", fld("street", "string"), fld("zip_code", "string"), fld("count", "int32"))
